@@ -491,6 +491,9 @@ def call_builtin(ex, name, args, kw, node):
         if x.is_int():
             return x
         raise Unsupported("round of a real")
+    if name == "float" and len(args) == 1 and isinstance(args[0], StrV) and args[0].s in ("inf", "-inf"):
+        # an unconstrained real (the code under contract only compares it after it was replaced)
+        return z3.Const(fresh_name("float_inf"), z3.RealSort())
     if name in ("int", "float", "bool"):
         if not args:
             return lift({"int": 0, "float": 0.0, "bool": False}[name])
@@ -608,7 +611,31 @@ def call_builtin(ex, name, args, kw, node):
     if name == "reversed":
         q = to_seq(ex, args[0], node)
         i = z3.Const(fresh_name("rv"), z3.IntSort())
-        return mk_seq(q.shape, [z3.Lambda([i], z3.Select(a, q.n - 1 - i)) for a in arrs_of(q)], q.n)
+        r = mk_seq(q.shape, [z3.Lambda([i], z3.Select(a, q.n - 1 - i)) for a in arrs_of(q)], q.n)
+        r.is_iterator = True  # (a variable bound to it can be consumed with next(); see Exec.assign)
+        r.reversed_of = q
+        return r
+    if name == "iter":
+        q = to_seq(ex, args[0], node)
+        r = SeqV(q.shape, q.arr, q.n)
+        r.is_iterator = True
+        return r
+    if name == "next" and len(args) == 1 and isinstance(node.args[0], ast.Name):
+        # next(it) for a variable bound to reversed(...) / iter(...): the position is a hidden variable
+        # __pos_<name> (havocked by loops that call next on it)
+        it = args[0]
+        pname = "__pos_" + node.args[0].id
+        if not isinstance(it, SeqV):
+            raise Unsupported("next() of a non-sequence iterator")
+        pos = ex.env.get(pname)
+        if not ex.decide(pos < it.n):
+            raise RaiseEx("StopIteration", ex.cur_line)
+        v = it.get(pos)
+        ex.env.mutate(pname, pos + 1)
+        return v
+    if name == "float" and len(args) == 1 and isinstance(args[0], StrV) and args[0].s in ("inf", "-inf"):
+        # an unconstrained real (the code under contract only compares it after it was replaced)
+        return z3.Const(fresh_name("float_inf"), z3.RealSort())
     if name in ("any", "all") and isinstance(args[0], GenExp):
         r = quantified_over_set(ex, args[0], name)
         if r is not None:
